@@ -4,6 +4,8 @@ import (
 	"context"
 	"fmt"
 	"math/rand"
+	"net/http/httptest"
+	"path"
 	"reflect"
 	"sort"
 	"strings"
@@ -174,23 +176,32 @@ func tryRegister(t registrar, d *grpc.ServiceDesc, h interface{}) (panicked bool
 
 func checkC15(e *core.Env) {
 	curEnv = e
-	e.SetRule("random histories (<=40 ops) of register (fresh / duplicate name with same or different handler and descriptor / ill-typed handler) , query (registered / unknown / near-miss names), ForEach and GetServiceInfo over random service descriptors, executed on HandlerMap, inprocgrpc.Channel and httpgrpc.Server, mirrored into a sequential model and a real grpc.Server; distinct = distinct op-kind sequences")
+	e.SetRule("random histories (<=40 ops) of register (fresh / duplicate name with same or different handler and descriptor / ill-typed handler) , query (registered / unknown / near-miss names), ForEach and GetServiceInfo over random service descriptors, executed on HandlerMap (directly and through a WithInterceptor view), inprocgrpc.Channel and httpgrpc.Server (after each refusal the server is asked for the refused methods: 404), mirrored into a sequential model and a real grpc.Server; distinct = distinct op-kind sequences")
 	e.Assume("registries are used from one goroutine (documented as not concurrency-safe)")
 	n := e.N(4000, 60000)
 	e.Cases("history", n, func(i int, r *rand.Rand) {
-		target := i % 3
+		target := i % 4
 		var reg registrar
 		var hm grpchan.HandlerMap
+		var hsrv *httpgrpc.Server
+		hbase := ""
+		viaView := false
 		tname := ""
 		switch target {
+		case 3:
+			// the same map, populated through a decorating view: descriptors are decorated copies, everything
+			// else (names, handler, metadata, methods, refusals) is as for direct registration
+			hm = grpchan.HandlerMap{}
+			reg, tname, viaView = grpchan.WithInterceptor(hm, passThroughUnary, passThroughStream), "HandlerMap-via-WithInterceptor", true
 		case 0:
 			hm = grpchan.HandlerMap{}
 			reg, tname = hm, "HandlerMap"
 		case 1:
 			reg, tname = &inprocgrpc.Channel{}, "inprocgrpc.Channel"
 		case 2:
-			base := pick(r, "/", "/api/", "/a/b")
-			reg, tname = httpgrpc.NewServer(httpgrpc.WithBasePath(base)), "httpgrpc.Server"
+			hbase = pick(r, "/", "/api/", "/a/b")
+			hsrv = httpgrpc.NewServer(httpgrpc.WithBasePath(hbase))
+			reg, tname = hsrv, "httpgrpc.Server"
 		}
 		ref := grpc.NewServer()
 		model := map[string]regEntry{}
@@ -214,6 +225,10 @@ func checkC15(e *core.Env) {
 					trace = append(trace, fmt.Sprintf("register-illtyped %s %T", name, h))
 					if p, _ := tryRegister(reg, d, h); !p {
 						fail("illtyped-accepted", fmt.Sprintf("handler of type %T registered for interface %v without panic", h, reflect.TypeOf(ht).Elem()))
+						return
+					}
+					if m := servedMethod(hsrv, hbase, d, nil); m != "" {
+						fail("refused-but-served", "the ill-typed registration was refused, yet the server answers requests for "+m)
 						return
 					}
 					continue
@@ -248,6 +263,10 @@ func checkC15(e *core.Env) {
 					fail("duplicate-accepted", fmt.Sprintf("second registration for %s (same descriptor=%v, same handler=%v) did not panic", name, d == old.desc, h == old.handler))
 					return
 				}
+				if m := servedMethod(hsrv, hbase, d, old.desc); m != "" {
+					fail("refused-but-served", "the second registration of "+name+" was refused, yet the server now answers requests for its method "+m)
+					return
+				}
 			case op < 8 && hm != nil: // query
 				var q string
 				if len(names) > 0 && r.Intn(3) != 0 {
@@ -261,7 +280,7 @@ func checkC15(e *core.Env) {
 				trace = append(trace, "query "+q)
 				d, h := hm.QueryService(q)
 				want, ok := model[q]
-				if ok && (d != want.desc || h != want.handler) {
+				if ok && (!sameDesc(d, want.desc, viaView) || h != want.handler) {
 					fail("query-wrong", fmt.Sprintf("QueryService(%q) returned (%p,%v) want (%p,%v)", q, d, h, want.desc, want.handler))
 					return
 				}
@@ -275,7 +294,7 @@ func checkC15(e *core.Env) {
 				bad := ""
 				hm.ForEach(func(d *grpc.ServiceDesc, h interface{}) {
 					seen[d.ServiceName]++
-					if w, ok := model[d.ServiceName]; !ok || w.desc != d || w.handler != h {
+					if w, ok := model[d.ServiceName]; !ok || !sameDesc(d, w.desc, viaView) || w.handler != h {
 						bad = d.ServiceName
 					}
 				})
@@ -295,7 +314,7 @@ func checkC15(e *core.Env) {
 				}
 			default: // info
 				trace = append(trace, "info")
-				got := reg.(infoer).GetServiceInfo()
+				got := infoSource(reg, hm).GetServiceInfo()
 				if d := diffInfo(got, ref.GetServiceInfo()); d != "" {
 					fail("info-differs", "GetServiceInfo differs from grpc.Server: "+d)
 					return
@@ -310,13 +329,13 @@ func checkC15(e *core.Env) {
 			}
 		}
 		// final comparison
-		got := reg.(infoer).GetServiceInfo()
+		got := infoSource(reg, hm).GetServiceInfo()
 		if d := diffInfo(got, ref.GetServiceInfo()); d != "" {
 			fail("info-differs", "final GetServiceInfo differs from grpc.Server: "+d)
 		}
 		if hm != nil {
 			for nme, w := range model {
-				if d, h := hm.QueryService(nme); d != w.desc || h != w.handler {
+				if d, h := hm.QueryService(nme); !sameDesc(d, w.desc, viaView) || h != w.handler {
 					fail("query-wrong", "final QueryService("+nme+") lost or changed the registration")
 				}
 			}
@@ -331,4 +350,70 @@ func checkC15(e *core.Env) {
 			e.Sample(map[string]any{"target": tname, "ops": trace})
 		}
 	})
+}
+
+// sameDesc: identity for direct registrations; for registrations through a decorating view the stored
+// descriptor is a decorated copy that must still describe the same service.
+func sameDesc(got, want *grpc.ServiceDesc, viaView bool) bool {
+	if !viaView || got == nil || want == nil {
+		return got == want
+	}
+	if got.ServiceName != want.ServiceName || got.HandlerType != want.HandlerType || !reflect.DeepEqual(got.Metadata, want.Metadata) || len(got.Methods) != len(want.Methods) || len(got.Streams) != len(want.Streams) {
+		return false
+	}
+	for i := range want.Methods {
+		if got.Methods[i].MethodName != want.Methods[i].MethodName {
+			return false
+		}
+	}
+	for i := range want.Streams {
+		g, w := got.Streams[i], want.Streams[i]
+		if g.StreamName != w.StreamName || g.ClientStreams != w.ClientStreams || g.ServerStreams != w.ServerStreams {
+			return false
+		}
+	}
+	return true
+}
+
+// servedMethod asks the HTTP server for every method of a refused description that is not also a method
+// of the accepted one (nil: none accepted under that name) and returns the first that is not answered 404.
+func servedMethod(srv *httpgrpc.Server, base string, refused, accepted *grpc.ServiceDesc) string {
+	if srv == nil {
+		return ""
+	}
+	have := map[string]bool{}
+	if accepted != nil {
+		for _, m := range accepted.Methods {
+			have[m.MethodName] = true
+		}
+		for _, m := range accepted.Streams {
+			have[m.StreamName] = true
+		}
+	}
+	probe := func(method, ct string) bool {
+		req := httptest.NewRequest("POST", path.Join(base, refused.ServiceName, method), strings.NewReader(""))
+		req.Header.Set("Content-Type", ct)
+		rec := httptest.NewRecorder()
+		guard(func() { srv.ServeHTTP(rec, req) })
+		return rec.Code != 404
+	}
+	for _, m := range refused.Methods {
+		if !have[m.MethodName] && probe(m.MethodName, httpgrpc.UnaryRpcContentType_V1) {
+			return m.MethodName
+		}
+	}
+	for _, m := range refused.Streams {
+		if !have[m.StreamName] && probe(m.StreamName, httpgrpc.StreamRpcContentType_V1) {
+			return m.StreamName
+		}
+	}
+	return ""
+}
+
+// infoSource: a decorating view has no service info of its own, the registry under it has.
+func infoSource(reg registrar, hm grpchan.HandlerMap) infoer {
+	if in, ok := reg.(infoer); ok {
+		return in
+	}
+	return hm
 }
